@@ -135,24 +135,18 @@ theorem forward_inv {s : St} {e0 : PitEntry} (e : PitEntry) (i : Interest) (hi :
   have hs : latest s.now e ≤ max e.horizon s.now := latest_le _ _ _ hr
   have hins : ∀ r ∈ e.ins, r.exp ≤ e.horizon := fun r h => hr r (List.mem_append_left _ h)
   have houts : ∀ r ∈ e.outs, r.exp ≤ e.horizon := fun r h => hr r (List.mem_append_right _ h)
-  have base : Inv8 { s with pit := setEntry s.pit { e with sched := some (latest s.now e) } } :=
-    setEntry_invx hi e0 _ h0 rfl ht hname ⟨_, rfl, hs⟩ hr
   unfold forward
   simp only
-  split
-  · exact base
-  · split
-    · exact base
-    · show Inv8 { s with pit := setEntry s.pit _ }
-      apply setEntry_invx hi e0 _ h0
-      · rfl
-      · exact ht
-      · exact hname
-      · exact ⟨_, rfl, hs⟩
-      · intro r hr'
-        rcases List.mem_append.mp hr' with h | h
-        · exact hins r h
-        · exact fold_upsertOut_recs _ _ _ _ _ hl _ houts r h
+  show Inv8 { s with pit := setEntry s.pit _ }
+  apply setEntry_invx hi e0 _ h0
+  · rfl
+  · exact ht
+  · exact hname
+  · exact ⟨_, rfl, hs⟩
+  · intro r hr'
+    rcases List.mem_append.mp hr' with h | h
+    · exact hins r h
+    · exact fold_upsertOut_recs _ _ _ _ _ hl _ houts r h
 
 theorem interestTail_inv (ord : List Name → List Name) {s : St} {e : PitEntry} (i : Interest)
     (hi : Inv8x e.tok s) (he : e ∈ s.pit) (hr : ∀ r ∈ e.ins ++ e.outs, r.exp ≤ e.horizon) :
